@@ -868,16 +868,16 @@ fn sub_basetypes(tier: Tier) -> Sub {
 fn sub_shared(_tier: Tier) -> Sub {
     let encs = Enc::all16();
     // which of the three string kinds each of three entries uses (3^3), x list sharing pattern (4)
-    let len = 16 * 27 * 4 * 2;
+    let len = 16 * 27 * 5 * 2;
     Sub::new(
         "d-shared-strings-lists",
         len,
-        "three entries whose names are given as String / StringRef / LineStringRef (all 27 assignments) with two of them naming the same text twice (StringTable / LineStringTable de-duplication), range and location lists added once and referenced twice / added twice with equal contents / two different lists / list referenced from both a child and the root x 16 encodings x endian; line program string forms string / line_strp / strp",
+        "three entries whose names are given as String / StringRef / LineStringRef (all 27 assignments) with two of them naming the same text twice (StringTable / LineStringTable de-duplication), range and location lists added once and referenced twice / added twice with equal contents / two different lists / list referenced from both a child and the root / an empty list added before another list x 16 encodings x endian; line program string forms string / line_strp / strp",
         move |ctx, idx| {
             let mut mx = Mix(idx);
             let enc = *mx.pick(&encs);
             let kinds: Vec<u64> = (0..3).map(|_| mx.take(3)).collect();
-            let pattern = mx.take(4);
+            let pattern = mx.take(5);
             let endian = if mx.flag() { RunTimeEndian::Big } else { RunTimeEndian::Little };
             let mut u = MUnit::from_forest(0, enc, &[usize::MAX, usize::MAX, 1], |i| tag_for(1, i));
             let text: [&[u8]; 3] = [b"dup", b"dup", b"other"];
@@ -927,6 +927,15 @@ fn sub_shared(_tier: Tier) -> Sub {
                     u.entries[2].attrs.push((AT_RANGES, MV::RngRef(0)));
                     u.entries[1].attrs.push((AT_LOCATION, MV::LocRef(1)));
                     u.entries[3].attrs.push((AT_LOCATION, MV::LocRef(0)));
+                }
+                4 => {
+                    // an empty list added before another list: each reference still reaches its own list
+                    u.ranges = vec![vec![], r1.clone()];
+                    u.locs = vec![vec![], l1.clone()];
+                    u.entries[1].attrs.push((AT_RANGES, MV::RngRef(0)));
+                    u.entries[2].attrs.push((AT_RANGES, MV::RngRef(1)));
+                    u.entries[1].attrs.push((AT_LOCATION, MV::LocRef(0)));
+                    u.entries[3].attrs.push((AT_LOCATION, MV::LocRef(1)));
                 }
                 _ => {
                     // lists present but never referenced; line program with shared strings
